@@ -114,6 +114,6 @@ def cases(draw, prof):
 TOTAL = specgen.profile(domain_rate=0.0, total_preds=True)
 PARTIAL = specgen.profile(domain_rate=0.0, partial=True)
 PARTS = [
-    Part("total", check_total, strategy=lambda ctx: cases(TOTAL), budget={"quick": 100, "thorough": 1500}),
-    Part("partial", check_partial, strategy=lambda ctx: cases(PARTIAL), budget={"quick": 60, "thorough": 800}),
+    Part("total", check_total, strategy=lambda ctx: cases(TOTAL), budget={"quick": 220, "thorough": 1500}),
+    Part("partial", check_partial, strategy=lambda ctx: cases(PARTIAL), budget={"quick": 150, "thorough": 800}),
 ]
